@@ -23,5 +23,7 @@ def run(F, rep):
     rep.run(lemmas.ladder_lemmas, F, rep)
     rep.run(common.run_kmer_lemmas, F, rep, {"len", "empty", "get", "set", "slice", "rc", "ext", "rank", "ham", "atgc"})
     rep.run(dt_seq.kmer_default_tables, F, rep, "C10.defaults")
+    # "reading a base": also through the trait's base iterator
+    rep.run(lemmas.kmer_base_iter_lemmas, F, rep, "L-kmer-iter")
     for ty in common.kmer_type_names(F):
         rep.run(lemmas.kmer_default_lemmas, F, rep, ty, rule="L-default")
